@@ -259,8 +259,10 @@ def _candidates(prog: Program):
         nm = f.name
         if not nm.startswith("_") or (nm.startswith("__") and nm.endswith("__")):
             continue
-        if f in anchors or nm in lits or nm in known_names or body_hash(f.node) in known_bodies:
-            continue
+        if nm in lits or nm in known_names or body_hash(f.node) in known_bodies:
+            continue  # a function of the reference tree (possibly renamed): the rules may be anchored in it
+        # (a *new* helper is inlined even when role discovery, run on the un-normalised tree, picked it - e.g. the loop
+        # of the initial design moved into a helper: after inlining the role is found where it was)
         if not (1 <= len(sites) <= MAX_SITES) or refs.get(nm, 0) != len(sites):
             continue
         node = f.node
@@ -442,6 +444,72 @@ def _inline_site(prog: Program, f: FunctionInfo, body, caller: FunctionInfo, cal
         ast.fix_missing_locations(s)
 
 
+CONTAINER_ATTRS = {"options", "optim_state", "function_logger", "iteration_history", "var_transf", "variable_transformer", "logger"}
+
+
+def propagate_container_aliases(fn_node) -> List[str]:
+    """``hist = self.iteration_history`` (a local bound once to one of the optimizer's state containers, which the function
+    never re-binds) is replaced by the attribute itself: the rules address state as ``self.<container>[...]``."""
+    assigns: Dict[str, list] = {}
+    rebinds = set()
+    for n in ast.walk(fn_node):
+        if isinstance(n, ast.Assign):
+            for t in n.targets:
+                for x in ast.walk(t):
+                    if isinstance(x, ast.Name) and isinstance(x.ctx, ast.Store):
+                        assigns.setdefault(x.id, []).append(n)
+                    if isinstance(x, ast.Attribute) and isinstance(x.ctx, ast.Store) and isinstance(x.value, ast.Name) and x.value.id == "self":
+                        rebinds.add(x.attr)
+        elif isinstance(n, (ast.AugAssign, ast.AnnAssign, ast.For, ast.With, ast.NamedExpr)):
+            for x in ast.walk(n.target if hasattr(n, "target") else n):
+                if isinstance(x, ast.Name) and isinstance(x.ctx, ast.Store):
+                    assigns.setdefault(x.id, []).append(n)
+    params = {a.arg for a in fn_node.args.args + fn_node.args.kwonlyargs}
+    subst = {}
+    for name, sts in assigns.items():
+        if name in params or name in STATE_NAMES:
+            continue
+        vals = []
+        for st in sts:
+            if not (isinstance(st, ast.Assign) and len(st.targets) == 1 and isinstance(st.targets[0], ast.Name)):
+                vals = None
+                break
+            v = st.value
+            if not (isinstance(v, ast.Attribute) and isinstance(v.value, ast.Name) and v.value.id == "self" and v.attr in CONTAINER_ATTRS and v.attr not in rebinds):
+                vals = None
+                break
+            vals.append(v.attr)
+        if vals and len(set(vals)) == 1:
+            subst[name] = (sts[0].value, sts)
+    if not subst:
+        return []
+
+    class R(ast.NodeTransformer):
+        def visit_Name(self, node):
+            if node.id in subst and isinstance(node.ctx, ast.Load):
+                return ast.copy_location(copy.deepcopy(subst[node.id][0]), node)
+            return node
+
+    drop = {id(st) for _v, sts_ in subst.values() for st in sts_}
+
+    class D(ast.NodeTransformer):
+        def generic_visit(self, node):
+            for field in ("body", "orelse", "finalbody"):
+                blk = getattr(node, field, None)
+                if isinstance(blk, list):
+                    blk[:] = [x for x in blk if id(x) not in drop] or ([ast.Pass()] if blk and field == "body" else [])
+            return super().generic_visit(node)
+
+    D().visit(fn_node)
+    R().visit(fn_node)
+    ast.fix_missing_locations(fn_node)
+    return sorted(subst)
+
+
+# local names the rules already read as state containers (terms.STATE_ALIASES): left alone
+STATE_NAMES = {"optim_state", "options", "function_logger", "func_logger", "iteration_history", "options_dict"}
+
+
 class _IfExpSplitter(ast.NodeTransformer):
     """``x = a if c else b``  ->  ``if c: x = a  else: x = b`` (statement level only)."""
 
@@ -515,6 +583,16 @@ def normalise(prog: Program) -> Tuple[Program, List[str]]:
             changed = True
         if not changed:
             break
+        trees = {m.relpath: m.tree for m in prog.modules.values()}
+        prog = Program(prog.root, override_trees=trees)
+    # container aliases
+    changed_alias = False
+    for fn in list(prog.functions()):
+        al = propagate_container_aliases(fn.node)
+        if al:
+            changed_alias = True
+            log.append(f"{fn.qualname} (container aliases {', '.join(al)} expanded)")
+    if changed_alias:
         trees = {m.relpath: m.tree for m in prog.modules.values()}
         prog = Program(prog.root, override_trees=trees)
     # shape normalisation of the candidate filter (the stage recogniser expects one result variable and one exit)
